@@ -60,6 +60,9 @@ def run_check(tier, seed):
     extra += S.gen_virtio_seg_cases(rng, 0)
     extra += S.gen_direrr_cases(rng, 0, transports=('fusedev', 'virtio', 'chan'))
     extra += S.gen_badname_cases(rng, 0, transports=('fusedev', 'virtio', 'chan'))
+    # audit6 blocks: INIT of every major class / minor / INIT_EXT tail shape (each must be answered), READ failing after data was pushed
+    extra += S.gen_init_shape_cases(rng, 0)
+    extra += S.gen_readerr_cases(rng, 0, transports=('fusedev', 'virtio', 'chan'))
     for i, c in enumerate(extra): c['id'] = n + i
     cases += extra
     for i, c in enumerate(cases):
